@@ -428,6 +428,9 @@ func (r *lsmRun) program(p lsmProfile) {
 		}
 	}
 	maint := 0
+	// The base level (destination of L0 moves) only moves towards L1 as data grows
+	// (compact.BuildTargets); the harness never directs a move below an earlier one.
+	base := 6
 	for i := 0; i < p.steps; i++ {
 		x := rng.Intn(100)
 		did := false
@@ -440,7 +443,10 @@ func (r *lsmRun) program(p lsmProfile) {
 		case x < 80:
 			did = r.flushOne()
 		case x < 86:
-			did = r.compactOnce(0, 0, 1+rng.Intn(6))
+			if base > 1 && rng.Intn(5) == 0 {
+				base--
+			}
+			did = r.compactOnce(0, 0, base)
 		case x < 88 && p.withL0L0:
 			r.db.VerifLSM().VerifAgeTables(time.Hour)
 			did = r.compactOnce(0, 0, 0)
@@ -461,6 +467,74 @@ func (r *lsmRun) program(p lsmProfile) {
 	}
 	r.readAll(p.plain)
 	r.nontriv = maint > 0
+}
+
+// scripted regression programs, run before the random ones
+var lsmScripts = map[string][]string{
+	// equal-version copies in two L0 tables (F1, repaired): the newer flush must win
+	"l0_tie":      {"put a 1", "rotate", "flush", "put a 2", "rotate", "flush", "read", "put a del", "rotate", "flush", "read", "reopen", "read"},
+	// the same through a move into one ingest buffer
+	"ingest_tie":  {"put k 1", "rotate", "flush", "put a 2", "put k 3", "rotate", "flush", "move", "read", "drain", "read"},
+	"ingest_tie2": {"put a 1", "put k 2", "rotate", "flush", "put k 3", "rotate", "flush", "move", "read", "drain", "read", "reopen", "read"},
+	// versions written out of order across sources (F4)
+	"order":       {"putv a 7 1", "rotate", "flush", "putv a 5 2", "read", "rotate", "flush", "read", "move", "read"},
+	// monotone versions through every kind of maintenance
+	"mono":        {"putv a 1 1", "putv b 1 2", "rotate", "flush", "putv a 2 3", "rotate", "flush", "move", "read", "putv a 3 4", "rotate", "flush", "move", "read", "drain", "read", "putv a 4 5", "rotate", "read", "reopen", "read", "flush", "read"},
+}
+
+func (r *lsmRun) script(steps []string, plain bool) {
+	maint := 0
+	for _, st := range steps {
+		f := strings.Fields(st)
+		switch f[0] {
+		case "put":
+			if f[2] == "del" {
+				_ = r.put(kv.CFDefault, []byte(f[1]), 0, nil, true, true)
+			} else {
+				_ = r.put(kv.CFDefault, []byte(f[1]), 0, []byte("v"+f[2]), false, true)
+			}
+		case "putv":
+			var ver uint64
+			fmt.Sscan(f[2], &ver)
+			_ = r.put(kv.CFDefault, []byte(f[1]), ver, []byte("v"+f[3]), false, false)
+		case "rotate":
+			r.rotate()
+			maint++
+		case "flush":
+			r.flushOne()
+			maint++
+		case "move":
+			r.compactOnce(0, 0, 6)
+			maint++
+		case "drain":
+			r.compactOnce(6, int(compact.IngestDrain), 0)
+			maint++
+		case "reopen":
+			r.reopen()
+			maint++
+		case "read":
+			r.readAll(plain)
+		}
+	}
+	r.readAll(plain)
+	r.nontriv = maint > 0
+}
+
+func runScriptLsm(c *corr.Ctx, name string, plain bool) {
+	dir, err := os.MkdirTemp(os.Getenv("VERIF_TMP"), "nokv-lsm-")
+	if err != nil {
+		panic(err)
+	}
+	defer os.RemoveAll(dir)
+	r := &lsmRun{dir: dir, engine: "skiplist", touched: map[string]map[uint64]bool{}, c: c, now: uint64(time.Now().Unix())}
+	flushGate.setOpen(false)
+	r.open()
+	first := r.layout().Active.SegmentID
+	r.script(lsmScripts[name], plain)
+	r.closeDB()
+	c.Count("script_" + name)
+	c.Emit(corr.Case{Coq: fmt.Sprintf("Cs %d %d %s", first, r.now, corr.List(r.ops)), Nontrivial: r.nontriv,
+		Desc: map[string]any{"script": name, "ops": r.desc}})
 }
 
 func runOneLsm(c *corr.Ctx, p lsmProfile, idx int) {
@@ -485,8 +559,17 @@ func runLsm(c *corr.Ctx) error {
 	c.Meta("run_module", "RunLsm")
 	plain := c.Prop == "C01"
 	c.Meta("rule", "random programs of writes (6 user keys incl. byte-prefix pairs, 2 column families, deletes, empty values), memtable rotation, gated flushes, every compaction kind (L0->ingest move to a chosen base level, L0->L0, ingest drain, ingest keep, regular), close+reopen, on a real DB with background compaction paused; after every maintenance step every touched key is read at every written version, version-1 and the maximum. non-trivial = at least one maintenance step executed; distinct by Gallina term")
-	n := c.Scale(60, 1500)
+	n := c.Scale(30, 1200)
 	var _ = bytes.Equal
+	if plain {
+		for _, name := range []string{"l0_tie", "ingest_tie", "ingest_tie2"} {
+			runScriptLsm(c, name, true)
+		}
+	} else {
+		for _, name := range []string{"order", "mono", "l0_tie"} {
+			runScriptLsm(c, name, false)
+		}
+	}
 	for i := 0; i < n; i++ {
 		p := lsmProfile{plain: plain, engine: "skiplist", steps: 25 + c.Rng.Intn(35), withL0L0: c.Rng.Intn(3) == 0, withReopn: c.Rng.Intn(2) == 0}
 		// the ART engine is property C07's subject; C01/C02/C12 use the default engine
